@@ -151,10 +151,18 @@ fn foreign_key(kt: KeyType, rng: &mut Rng) -> Result<(KeyPair, String), String> 
         return Ok((kp, format!("compressed point, {}", if via_pem { "ec-pem" } else { "der" })));
     }
     let fmt = rng.below(3);
+    // explanatory text before the BEGIN line (RFC 7468 allows it; `openssl pkcs12 -nodes` writes "Bag Attributes" there)
+    let preface: &[u8] = match rng.below(4) {
+        0 => b"Bag Attributes\n    friendlyName: account key\n    localKeyID: 01 02 03\nKey Attributes: <No Attributes>\n",
+        1 => b"# key of the ACME account, do not share\n\n",
+        _ => b"",
+    };
+    let with_preface = |pem: Vec<u8>| { let mut v = preface.to_vec(); v.extend(pem); v };
+    if !preface.is_empty() { label += " text-before-BEGIN"; }
     let kp = match fmt {
-        0 => { label += " pkcs8-pem"; KeyPair::from_pem(&pk.private_key_to_pem_pkcs8().map_err(es)?).map_err(|e| e.to_string())? }
-        1 if pk.id() == Id::RSA => { label += " rsa-pem"; KeyPair::from_pem(&pk.rsa().map_err(es)?.private_key_to_pem().map_err(es)?).map_err(|e| e.to_string())? }
-        1 if pk.id() == Id::EC => { label += " ec-pem"; KeyPair::from_pem(&pk.ec_key().map_err(es)?.private_key_to_pem().map_err(es)?).map_err(|e| e.to_string())? }
+        0 => { label += " pkcs8-pem"; KeyPair::from_pem(&with_preface(pk.private_key_to_pem_pkcs8().map_err(es)?)).map_err(|e| e.to_string())? }
+        1 if pk.id() == Id::RSA => { label += " rsa-pem"; KeyPair::from_pem(&with_preface(pk.rsa().map_err(es)?.private_key_to_pem().map_err(es)?)).map_err(|e| e.to_string())? }
+        1 if pk.id() == Id::EC => { label += " ec-pem"; KeyPair::from_pem(&with_preface(pk.ec_key().map_err(es)?.private_key_to_pem().map_err(es)?)).map_err(|e| e.to_string())? }
         _ => { label += " der"; KeyPair::from_der(&pk.private_key_to_der().map_err(es)?).map_err(|e| e.to_string())? }
     };
     Ok((kp, label))
